@@ -566,7 +566,9 @@ CHECKS = {'C01': {'level': 'exploration',
                  'or succeed, must leave no temp file or descriptor behind, and when it returns nil its output must restore to the row count of that '
                  'moment | since round 5: the first healthy snapshot of every case is restored and compared (also for collections without rows) | '
                  'since round 6: in large layouts with a plain string column some snapshots (failing and healthy) get a log tail of more than 1 MiB: '
-                 'one bulk transaction re-writes the string of all ~33 000 rows at a drawn yield point',
+                 'one bulk transaction re-writes the string of all ~33 000 rows at a drawn yield point | since round 8 the failing destination '
+                 'returns, in rotation over the plans, an anonymous error, os.ErrClosed, a *fs.PathError wrapping os.ErrClosed (what a closed '
+                 '*os.File returns), io.ErrClosedPipe, io.ErrShortWrite and ENOSPC',
          'assumptions': ['fault positions are enumerated per collection as described; which collections are tried is random (rapid)',
                          'descriptor/file leaks are counted by name pattern column_*.log so unrelated runtime descriptors cannot alarm'],
          'tests': [{'run': '^TestC14$',
@@ -658,7 +660,9 @@ CHECKS = {'C01': {'level': 'exploration',
                  'operations on EXISTING rows may fail too (the call reports the error, the stores stay buffered and commit); the harness record '
                  'codec has an optional field that its decoder leaves alone when absent (like encoding/json with omitted fields); string columns may '
                  'use a "set or append" merge that returns a sub-slice of its delta | since round 8 generated transactions may end by obtaining '
-                 'typed column accessors that they only read (txn.Int64(name).Get(): an update buffer that stays empty)',
+                 'typed column accessors that they only read (txn.Int64(name).Get(): an update buffer that stays empty) | since round 8 a sort index '
+                 'is dropped with DropIndex or with DropColumn(indexName) ("removes the column (or an index) with the specified name") and half of '
+                 'the re-creations re-use the name of the index that was dropped last',
          'assumptions': ['quiescent checks (no writer runs during Ascend)'],
          'tests': [{'run': '^TestC16$',
                     'checks': {'quick': 300, 'thorough': 3000},
@@ -694,7 +698,10 @@ CHECKS = {'C01': {'level': 'exploration',
                  'of 2.9 s must survive the pass that looks at them 1.4 s before their deadline | TestC17SlowVacuum (round 8) also holds a keyed '
                  'collection with the same 1.5 s cleanup interval: a row with a 50 ms TTL is overdue but still owns its key until the cleanup comes '
                  'by; every 100 ms InsertKey of that key WITHOUT a TTL is attempted; whatever the call answers, a row that it reported as created is '
-                 'never removed (sampled every 100 ms for 3.6 s, across two cleanup passes)',
+                 'never removed (sampled every 100 ms for 3.6 s, across two cleanup passes) | TestC17ManyRows (round 8): a cleanup interval of 1 ms '
+                 'over 300 000 rows that carry a deadline one hour away (19 blocks; one pass takes longer than the interval): the 3 rows at the '
+                 'highest offsets, with a 50 ms TTL, must be gone within 20 s of their deadline (presence by id through a full Range), and Count '
+                 'must then be exactly the 300 000 others',
          'assumptions': ['wall-clock property: margins (1 s safety guard band, 10 s liveness bound = >200x the expected latency) instead of a clock '
                          'hook; a run on a machine stalled for more than the margins would be inconclusive, never a violation of safety',
                          'timing is not reproducible bit-for-bit; the case (rows, TTLs, interval, mode) is'],
@@ -707,7 +714,8 @@ CHECKS = {'C01': {'level': 'exploration',
                     'shards': {'quick': 1, 'thorough': 2},
                     'timeout': {'quick': 900, 'thorough': 3400},
                     'shrinktime': '5s'},
-                   {'run': '^TestC17SlowVacuum$', 'timeout': {'quick': 900, 'thorough': 3400}}]},
+                   {'run': '^TestC17SlowVacuum$', 'timeout': {'quick': 900, 'thorough': 3400}},
+                   {'run': '^TestC17ManyRows$', 'timeout': {'quick': 300, 'thorough': 300}}]},
  'C18': {'level': 'exploration',
          'rule': 'generated concurrent programs (rapid): 4..16 goroutines drawn from 11 worker kinds - transactions growing the collection across '
                  'blocks (with bulk deletes and reuse), point reads of every column kind, filtered iteration (index / typed / value filters), '
